@@ -34,7 +34,7 @@ fn main() {
                 for api in ALL_APIS.iter().copied().filter(|a| cfg_b || !a.needs_b()) {
                     let gs = threads::small_conflicting_graph(&mut rng, max_n);
                     let ug = UserGraph::from_spec(&gs);
-                    let mut g = tfn::build(&gs);
+                    let Some(mut g) = threads::try_build(&gs) else { continue };
                     let built = tfn::built_of(&g);
                     let mut prof = RunProfile::new(vec![api]);
                     prof.fail_pct = 30;
@@ -89,7 +89,7 @@ fn main() {
                 for &api in &apis {
                     let gs = if it % 2 == 0 { threads::small_conflicting_graph(&mut rng, max_n) } else { gen::wide_graph(&mut rng, max_n.max(8) * 20) };
                     let ug = UserGraph::from_spec(&gs);
-                    let mut g = tfn::build(&gs);
+                    let Some(mut g) = threads::try_build(&gs) else { continue };
                     let built = tfn::built_of(&g);
                     let mut prof = RunProfile::new(vec![api]);
                     prof.fail_pct = 20;
